@@ -310,8 +310,57 @@ fn s_streams() -> Result<(), String> {
     Ok(())
 }
 
+/// the insert/update gate: every value is checked against ITS column, whatever else is in the batch
+fn s_gate() -> Result<(), String> {
+    let m = Medium::new();
+    let mut p = Package::create(PackageType::Installer, m.clone()).map_err(|e| e.to_string())?;
+    p.create_table(
+        "G",
+        vec![
+            Column::build("K").primary_key().int16(),
+            Column::build("T").nullable().text_string(0),
+            Column::build("I").nullable().id_string(0),
+            Column::build("N").nullable().range(0, 10).int32(),
+        ],
+    )
+    .map_err(|e| e.to_string())?;
+    let bad_batches: Vec<Vec<Vec<Value>>> = vec![
+        // the same string valid in an earlier column, invalid in a later one
+        vec![vec![Value::Int(1), Value::from("hello world"), Value::from("hello world"), Value::Int(1)]],
+        // valid first row, the same string invalid in a later row / column
+        vec![
+            vec![Value::Int(1), Value::from("not-an-id"), Value::from("Ok_1"), Value::Int(1)],
+            vec![Value::Int(2), Value::from("x"), Value::from("not-an-id"), Value::Int(2)],
+        ],
+        // wrong arity, only in the last row
+        vec![vec![Value::Int(1), Value::Null, Value::Null, Value::Int(1)], vec![Value::Int(2), Value::Null, Value::Null]],
+        // out-of-range / wrong type values in the last position
+        vec![vec![Value::Int(1), Value::Null, Value::Null, Value::Int(11)]],
+        vec![vec![Value::Int(1), Value::Null, Value::Null, Value::from("1")]],
+        vec![vec![Value::Int(40000), Value::Null, Value::Null, Value::Int(1)]],
+        vec![vec![Value::Null, Value::Null, Value::Null, Value::Int(1)]],
+    ];
+    for (i, batch) in bad_batches.into_iter().enumerate() {
+        if p.insert_rows(Insert::into("G").rows(batch)).is_ok() {
+            return Err(format!("invalid batch #{} was accepted by insert_rows", i));
+        }
+        let n = p.select_rows(Select::table("G")).map_err(|e| e.to_string())?.count();
+        if n != 0 {
+            return Err(format!("a refused batch (#{}) left {} rows behind", i, n));
+        }
+    }
+    p.insert_rows(Insert::into("G").row(vec![Value::Int(1), Value::from("a b"), Value::from("Id_1"), Value::Int(10)])).map_err(|e| format!("valid row refused: {}", e))?;
+    for (col, v) in [("I", Value::from("a b")), ("N", Value::Int(-1)), ("K", Value::from("x"))] {
+        if p.update_rows(Update::table("G").set(col, v.clone())).is_ok() {
+            return Err(format!("update of {} to invalid value {:?} was accepted", col, v));
+        }
+    }
+    Ok(())
+}
+
 #[test]
 fn replay_protocol() {
+    report("gate", s_gate());
     report("streams", s_streams());
     report("summary_after_table_flush", s_summary_after_table(0));
     report("summary_after_table_into_inner", s_summary_after_table(1));
